@@ -151,14 +151,21 @@ static std::string tweak(Src& s, MV& v) {
   MV* n = nodes[s.index(nodes.size())];
   switch (n->k) {
     case MV::Uint:
+      if (s.coin(1, 3)) {  // same 64 payload bits, another number kind
+        if (n->u > (uint64_t)INT64_MAX && s.coin(1, 2)) { n->k = MV::Sint; return "uint >= 2^63 vs the negative integer with the same two's-complement bits"; }
+        if (((n->u >> 52) & 0x7ff) != 0x7ff) { n->k = MV::Real; return "uint vs the double with the same payload bits"; }
+      }
       switch (s.index(4)) {
         case 0: *n = MV::real((double)n->u); return "uint -> double of the same value (1 vs 1.0)";
         case 1: if (n->u != 0 && n->u <= (1ull << 62)) { *n = MV::sint(-(int64_t)n->u); return "sign flipped"; } n->u++; return "uint +1";
         case 2: { char b[32]; snprintf(b, sizeof b, "%llu", (unsigned long long)n->u); *n = MV::str(b); return "number -> its digits as a string"; }
         default: n->u ^= 1ull << s.range(0, 63); return "one bit of a uint flipped";
       }
-    case MV::Sint: n->u ^= 1ull << s.range(0, 62); if ((int64_t)n->u >= 0) n->k = MV::Uint; return "one bit of an int flipped";
+    case MV::Sint:
+      if (s.coin(1, 3)) { n->k = MV::Uint; return "negative integer vs the unsigned integer with the same two's-complement bits"; }
+      n->u ^= 1ull << s.range(0, 62); if ((int64_t)n->u >= 0) n->k = MV::Uint; return "one bit of an int flipped";
     case MV::Real:
+      if (s.coin(1, 5)) { n->k = (n->u >> 63) ? MV::Sint : MV::Uint; return "double vs the integer with the same payload bits"; }
       if (s.coin(1, 3) && (n->u << 1) == 0) { n->u ^= 1ull << 63; return "0.0 vs -0.0"; }
       n->u ^= 1ull << s.range(0, 51);
       return "one mantissa bit of a double flipped";
@@ -240,6 +247,7 @@ static void property(Src& s, Case& c) {
   // sprinkle static strings so that the const-string history has something to borrow
   {
     std::function<void(MV&)> f = [&](MV& x) {
+      if (x.k == MV::Uint && s.coin(1, 4)) x.u |= 1ull << 63;  // unsigned values above INT64_MAX
       if (x.k == MV::Str && s.coin(1, 4)) {
         x.s = s.oneof(kStatic);
         if (s.coin(1, 2)) x.s = kStatic[3].substr(0, (size_t)s.pick(1, kStatic[3].size()));  // a slice of the shared buffer
